@@ -296,4 +296,40 @@ def pointCell (data : History α) (ag : Nat) (c : Col) (t : Nat) : Num α :=
 /-- the statistics history of a run: `collect` at every recorded time. -/
 def histOf (o : Ops α) (pops : List (Nat × List (Agent α))) : History α := pops.map (fun x => (x.1, collect o x.2))
 
+/-! ### wave 3: the population changes during a step
+
+`SimultaneousScheduler.run_step` passes `model.agents` — read *after* `begin_round`, all `handle_events`/`act` and
+`end_round` — to `collect_agent_statistics`.  What the callbacks do to the population is a list of operations in
+execution order; the statistics of the time are those of the population after all of them. -/
+
+/-- an entry of `model.agents`: the agent with its id. -/
+structure IAgent (α : Type) where
+  id : Nat
+  agent : Agent α
+
+inductive PopOp (α : Type) where
+  | delete (ids : List Nat)            -- delete_agent / delete_agents: `model.agents` is rebound to the filtered list
+  | create (a : IAgent α)              -- create_agent: appended
+  | setState (id st : Nat)             -- agent.state = …
+  | setValue (id p : Nat) (v : α)      -- agent.set_property_value(p, v) on an existing entry
+  | clear                              -- configure_agents / reset: `model.agents = []`
+
+def setEntry (p : Nat) (v : α) (es : List (Entry α)) : List (Entry α) :=
+  es.map (fun e => if e.name = p then { e with value := v } else e)
+
+def applyOp (pop : List (IAgent α)) : PopOp α → List (IAgent α)
+  | .delete ids => pop.filter (fun x => !ids.contains x.id)
+  | .create a => pop ++ [a]
+  | .setState id st => pop.map (fun x => if x.id = id then { x with agent := { x.agent with state := st } } else x)
+  | .setValue id p v =>
+    pop.map (fun x => if x.id = id then { x with agent := { x.agent with props := setEntry p v x.agent.props } } else x)
+  | .clear => []
+
+/-- `model.agents` at the end of the step. -/
+def endOfStep (pop : List (IAgent α)) (ops : List (PopOp α)) : List (IAgent α) := ops.foldl applyOp pop
+
+/-- the statistics `run_step` records for the time of the step. -/
+def collectStep (o : Ops α) (pop : List (IAgent α)) (ops : List (PopOp α)) : Stats α :=
+  collect o ((endOfStep pop ops).map (·.agent))
+
 end Bptk.C13
